@@ -108,6 +108,13 @@ class Flow:
             elif isinstance(st, (ast.FunctionDef, ast.ClassDef)):
                 self._add(Def(st.name, n, None, 'other', st))
             # walrus / comprehension variables are expression-local: ignored
+        # the value an attribute path has on entry is a definition too (otherwise a store on one branch would look like
+        # the unique definition at a join)
+        dotted = sorted({d.var for d in self.defs if '.' in d.var})
+        for v in dotted:
+            d = Def(v, None, None, 'entry')
+            self._add(d)
+            self.param_defs.append(d)
 
     def _kills(self, d: Def, var: str) -> bool:
         """does definition d kill variable var"""
